@@ -1,0 +1,41 @@
+//go:build verif
+
+// Machine-checked contracts for package mcap (comment-only; compiled only under the build tag "verif").
+// They are read by /verif/govc, which generates verification conditions from the Go code of this package
+// and discharges them with SMT solvers. Syntax: see /verif/DESIGN.md §2.4.
+package mcap
+
+/*@ func getUint16
+    safety C10
+    requires offset >= 0
+    ensures err == nil ==> newoffset == offset + 2 && newoffset <= len(buf)
+    ensures err != nil ==> newoffset == 0
+@*/
+
+/*@ func getUint32
+    safety C10
+    requires offset >= 0
+    ensures err == nil ==> newoffset == offset + 4 && newoffset <= len(buf)
+    ensures err != nil ==> newoffset == 0
+@*/
+
+/*@ func getUint64
+    safety C10
+    requires offset >= 0
+    ensures err == nil ==> newoffset == offset + 8 && newoffset <= len(buf)
+    ensures err != nil ==> newoffset == 0
+@*/
+
+/*@ func getPrefixedString
+    safety C10
+    requires offset >= 0 && offset <= len(data)
+    ensures err == nil ==> newoffset >= offset + 4 && newoffset <= len(data) && len(s) == newoffset - offset - 4
+    ensures err != nil ==> newoffset == 0
+@*/
+
+/*@ func getPrefixedBytes
+    safety C10
+    requires offset >= 0 && offset <= len(data)
+    ensures err == nil ==> newoffset >= offset + 4 && newoffset <= len(data) && len(s) == newoffset - offset - 4
+    ensures err != nil ==> newoffset == 0
+@*/
